@@ -222,7 +222,9 @@ theorem file_refines' (bs : Nat) : Refines bs (fileImpl bs) (FileSim bs) where
       have h1 : ¬ a ≥ d.numBlocks := by omega
       simp only [hb, ne_eq, not_true_eq_false, ↓reduceIte, h1, hf]
       rw [pread_flatten r hall a ha]
-      rw [goCopy_same_length buf r[a] (by rw [hall _ (List.getElem_mem ha), hb])]
+      have hlen : r[a].length = bs := hall _ (List.getElem_mem ha)
+      rw [goCopy_same_length buf r[a] (by rw [hlen, hb])]
+      simp [hlen]
     · rw [List.getElem?_eq_none (by omega)]
       have h1 : a ≥ d.numBlocks := by omega
       simp [hb, h1]
@@ -438,5 +440,56 @@ theorem regsOfImage_flatten (bs : Nat) (r : Regs) (hall : AllLen bs r) (m : Nat)
     have e2 : (r.take m ++ List.replicate (m - r.length) (List.replicate bs (0 : UInt8)))[a]? = none :=
       List.getElem?_eq_none (by simp; omega)
     simp [e, e2]
+
+/-! ### the transfer loop of `ReadTo` (repair 256b1fc) against an OS that returns short counts -/
+
+theorem pread_length (file : Bytes) (off len : Nat) : (pread file off len).length = min len (file.length - off) := by
+  simp [pread]
+
+theorem pread_append (file : Bytes) (off a b : Nat) :
+    pread file off a ++ pread file (off + a) b = pread file off (a + b) := by
+  simp only [pread]
+  rw [← List.drop_drop]
+  exact (List.take_add (l := file.drop off) (i := a) (j := b)).symm
+
+/-- With enough calls and enough bytes in the file the loop returns exactly the block, however few bytes each call hands over. -/
+theorem readLoop_complete (file : Bytes) (off len : Nat) (ks : List Nat) (n : Nat)
+    (hfile : off + len ≤ file.length) (hn : n ≤ len) (hk : len - n ≤ ks.length) :
+    readLoop file off len ks (pread file off n) = some (pread file off len) := by
+  induction ks generalizing n with
+  | nil =>
+    have : n = len := by simp at hk; omega
+    subst this
+    simp [readLoop, pread_length]; omega
+  | cons k ks ih =>
+    have hl : (pread file off n).length = n := by rw [pread_length]; omega
+    unfold readLoop
+    by_cases hdone : n = len
+    · subst hdone; simp [hl]
+    · simp only [hl, hdone, ↓reduceIte]
+      have hpos : 0 < min (k + 1) (len - n) := by omega
+      have hgot : (pread file (off + n) (min (k + 1) (len - n))).length = min (k + 1) (len - n) := by
+        rw [pread_length]; omega
+      simp only [hgot]
+      rw [if_neg (by omega), pread_append]
+      apply ih
+      · omega
+      · simp at hk; omega
+
+/-- A block that lies (partly) beyond the end of the file: the loop never reports success, whatever the OS hands over per call. -/
+theorem readLoop_short_file (file : Bytes) (off len : Nat) (ks : List Nat) (acc : Bytes)
+    (hfile : file.length < off + len) (hacc : off + acc.length ≤ file.length) :
+    readLoop file off len ks acc = none := by
+  induction ks generalizing acc with
+  | nil => simp [readLoop]; omega
+  | cons k ks ih =>
+    unfold readLoop
+    rw [if_neg (by omega)]
+    simp only
+    split
+    · rfl
+    · apply ih
+      rw [List.length_append, pread_length]
+      omega
 
 end GooseVerif.Model.Disk
